@@ -20,7 +20,7 @@ def run(ctx):
                 "API errors at each call, both networks); evaluations = steps executed on the real watcher code; distinct non-trivial = steps (height tick / re-observation) "
                 "in which at least one message was forwarded")
     ctx.samples = [{"history": r["id"], "step": s} for r in rows[:40] for s in r["steps"] if s.get("fwd")][:4]
-    n, bad = A.model_compare(ctx, "cases_C09", rows)
+    n, bad = A.model_compare(ctx, "cases_C09", rows, ignore_reobs_fwd=True)
     if bad is None:
         return
     ctx.cov["traces_validated_against_impl"] = n
